@@ -484,7 +484,7 @@ HASH_MOD = 2305843009213693951
 def hl(l):
     h = 7
     for v in l:
-        h = (h * 1000003 + v + 1) % HASH_MOD
+        h = (h * 1000003 + v + 1) & HASH_MOD
     return h
 
 
